@@ -186,7 +186,9 @@ def run_selftest(prop, root, mod, jobs=16):
             skipped.append({'name': os.path.basename(d), 'kind': 'seeded', 'outcome': 'skipped', 'error': str(e)})
             continue
         variants.append((prop, root, os.path.basename(d), overlay, None, 'seeded'))
-    for d in sorted(glob.glob(os.path.join(VERIF_DIR, 'refactors', prop + '-*'))):
+    # every recorded behaviour-preserving refactoring is a twin for every property (a refactoring made with one property in
+    # mind may sit on code another property's rules read)
+    for d in sorted(glob.glob(os.path.join(VERIF_DIR, 'refactors', 'C*-*'))):
         pf = os.path.join(d, 'patch.diff')
         if not os.path.exists(pf):
             continue
